@@ -271,6 +271,25 @@ def p_gateway( ctx ):
     else:
         res.bad( src, closes[0].stmt, 'proxy.close_gateway: an exception from self.gateway.close() skips self.gateway = None',
                  'a connected gateway raises from close() when its connection is already dead ( Forward Close -> EPIPE ): the dead gateway is kept, open_gateway sees it and never reconnects - every later use fails' )
+    # @maintain_gateway promises "open the gateway, discard it on any Exception" around the decorated method.  A GENERATOR method performs its I/O
+    # while it is iterated: `with inst: return function( ... )` is left as soon as the generator object exists, and an exception raised during
+    # iteration never reaches proxy.__exit__ - the faulted connection is kept, and the next use takes the stale replies still in flight.
+    # For every decorated generator method the decorator must have a wrapper that ITERATES inside the `with`.
+    mg = src.get( 'proxy.maintain_gateway', required=False )
+    if mg is not None:
+        decorated = [ f for cd in ast.walk( src.tree ) if isinstance( cd, ast.ClassDef ) for f in cd.body if isinstance( f, ast.FunctionDef )
+                      and any( dotted( d ) in ( 'maintain_gateway', 'proxy.maintain_gateway' ) for d in f.decorator_list ) ]
+        gens = [ f for f in decorated if any( isinstance( y, ( ast.Yield, ast.YieldFrom )) for y in walk_no_nested( f )) ]
+        wrappers = [ f for f in ast.walk( mg ) if isinstance( f, ast.FunctionDef ) and f is not mg ]
+        iterating = [ f for f in wrappers if any( isinstance( w_, ast.With ) and any( isinstance( y, ( ast.Yield, ast.YieldFrom )) for b in w_.body for y in ast.walk( b )) for w_ in walk_no_nested( f )) ]
+        selected = any( is_call_to( c, 'inspect.isgeneratorfunction', 'isgeneratorfunction' ) for c in ast.walk( mg ))
+        if not decorated:
+            raise AnalysisError( 'get_attribute.py: no method decorated with maintain_gateway found' )
+        if gens and not ( iterating and selected ):
+            res.bad( src, mg, 'maintain_gateway leaves its `with inst:` before the generator method(s) %s are iterated' % ', '.join( sorted( { f.name for f in gens } )),
+                     'an exception while the results are being harvested ( timeout, cut connection ) does not discard the gateway: the late reply stays in flight, and the next read - contexts restart at 0 - is answered with it: another request\'s data, without any error' )
+        else:
+            res.ok( src, mg, 'maintain_gateway keeps the gateway context open while a decorated generator method ( %s ) is iterated' % ', '.join( sorted( { f.name for f in gens } )) if gens else 'maintain_gateway decorates no generator method' )
     og = src.get( 'proxy.open_gateway' )
     w = [ x for x in ast.walk( og ) if isinstance( x, ast.With ) and any( txt( it.context_expr ) == 'self.gateway_lock' for it in x.items ) ]
     cr = [ i for i in ast.walk( og ) if isinstance( i, ast.If ) and pmatch( i.test, 'self.gateway is None' ) and pfind( i, 'self.gateway = self.gateway_class( **_k )' ) or
@@ -443,6 +462,16 @@ def p_bundle( ctx ):
     resets = [ n for n in cfg.nodes if n.kind == 'stmt' and n.stmt is not None and pmatch( n.stmt, '%s = {}' % PATHS ) and src.enclosing( n.stmt, ( ast.For, )) is loop[0] ]
     if not appends:
         raise AnalysisError( 'connector.issue: queueing ( %s.append ) not found' % REQS )
+    # an operation that is bundled enters the queue exactly ONCE: besides .append, a non-empty list bound to the queue ( requests = [ ( descr,
+    # op, req ) ] at a bundle split ) queues too - per iteration at most one of these effects on any path ( 0 on the single-request path )
+    seeds_ = [ n for n in cfg.nodes if n.kind == 'stmt' and isinstance( n.stmt, ast.Assign ) and any( dotted( t_ ) == REQS for t_ in n.stmt.targets )
+               and isinstance( n.stmt.value, ( ast.List, ast.Tuple )) and n.stmt.value.elts and src.enclosing( n.stmt, ( ast.For, )) is loop[0] ]
+    qcnt = cfg.effect_counts( first[0], appends + seeds_, backs, cut_back=True, skip_labels=( 'exc', ))
+    if qcnt and all( hi <= 1 for lo, hi in qcnt.values() ):
+        res.ok( src, appends[0].stmt, 'an operation enters the bundle queue at most once per iteration (%d queueing statement(s))' % len( appends + seeds_ ))
+    else:
+        res.bad( src, ( seeds_ or appends )[0].stmt, 'connector.issue queues one operation up to %s times in one iteration' % max( hi for lo, hi in qcnt.values() ) if qcnt else 'connector.issue: queueing count undetermined',
+                 'the request that overflowed a Multiple Service Packet is embedded twice in the next one: executed twice, answered twice, and every later reply is shifted by one against the operations - bundled results differ from the individual ones' )
     # a flushed bundle takes its recorded paths with it: from every flush inside the loop, every path to the next queueing passes a reset of
     # the recorded paths (else all later bundles are sent along the FIRST bundle's route / send path)
     flushes = [ sn for sn in sends if sn.stmt is not None and src.enclosing( sn.stmt, ( ast.For, )) is loop[0] ]
@@ -725,6 +754,13 @@ def p_separators( ctx ):
     IGNORE = member_tests( skips[0].test )[0].comparators[0].id
     if IGNORE not in [ a.arg for a in fn.args.args + fn.args.kwonlyargs ]:
         raise AnalysisError( 'tnet_from: the discarded set %r is not a parameter' % IGNORE )
+    # "a symbol is pending" is source.peek() is not None - never its truthiness: the symbol 0 ( a NUL separator, ignore=b'\\x00' ) is falsy
+    for w in skips:
+        vals = [ v for b_ in ast.walk( w.test ) if isinstance( b_, ast.BoolOp ) for v in b_.values ] + [ w.test ]
+        if any( pmatch( v, '%s.peek()' % SOURCE ) is not None for v in vals ):
+            res.bad( src, w, 'tnet_from: the discard loop tests the truthiness of %s.peek()' % SOURCE, "a pending NUL symbol is falsy: with ignore=b'\\x00' the separator is never discarded and reaches the length parser" )
+    if res.findings:
+        return res
     cfg = CFG( fn )
     inside = lambda n: any( a is loop for a in src.ancestors( n ))
     head = [ w for w in skips if not inside( w ) ]
@@ -780,6 +816,15 @@ def p_separators( ctx ):
         if not any( cfg.dominates( n, hnode, dom ) for n in first ):
             res.bad( src, w, 'tnet_from: marker %s is not set ahead of each engine run' % marker, 'the guard compares against the position of an earlier message' )
             continue
+        # the marker is the position at which the engine STARTS: nothing is taken from the source between its store and the engine run (a
+        # marker stored ahead of the head discard is stale as soon as one separator is discarded there - the in-loop guard is then false
+        # for the whole message, and separators that continue in the next block reach the length parser again)
+        takers = [ n for n in cfg.nodes if n.kind == 'stmt' and n.stmt is not None and not inside( n.stmt ) and any( pmatch( c, 'next( %s )' % SOURCE ) is not None for c in ast.walk( n.stmt )) ]
+        stale = [ t for f_ in first if cfg.dominates( f_, hnode, dom ) for t in takers if t in cfg.reachable( f_, stop=[ hnode ] ) and hnode in cfg.reachable( t, avoid=[ x for x in first if x is not f_ ] + [ f_ ] ) ]
+        if stale:
+            res.bad( src, stale[0].stmt, 'tnet_from: symbols are discarded ( %s ) after the start-of-message marker %s was stored and before the engine starts' % ( norm_text( stale[0].stmt ), marker ),
+                     "with two separators between messages and the block boundary between them ( b'1:a,\\r' | b'\\n3:b...' ) the marker no longer equals source.sent when the next block arrives: its leading separator is parsed as a length - NonTerminal, depending on how the stream is cut" )
+            continue
         nexts = [ n for n in cfg.nodes if n.kind == 'stmt' and any( a is w for a in src.ancestors( n.stmt )) and any( pmatch( c, 'next( %s )' % SOURCE ) is not None for c in ast.walk( n.stmt )) ]
         gnodes = [ n for n in cfg.nodes if n.kind == 'test' and any( n.expr is g and start_guard( g ) for g in guards ) ]
         refresh = [ n for n in stores if inside( n.stmt ) ]
@@ -787,6 +832,40 @@ def p_separators( ctx ):
             res.ok( src, w, 'the discard after %s.chain( ... ) runs only while %s.sent == %s ( nothing of the current message consumed ), and %s follows each discarded symbol' % ( SOURCE, SOURCE, marker, marker ))
         else:
             res.bad( src, w, 'tnet_from: %s is not refreshed after next( %s ) in the discard loop' % ( marker, SOURCE ), 'only the first of several separators is discarded ( a blank line between messages fails )' )
+    return res
+
+
+@rule( 'T-OPVALUES', props=( 'C12', ), floor=1 )
+def t_opvalues( ctx ):
+    """parse_operations: the value list of a write ( TAG=(TYPE)v1, "v 2", v3 ) is the documented "comma-separated, whitespace-padded" list:
+    the reader that splits it separates at ',', quotes with '"', and DISCARDS the blanks that follow a separator ( skipinitialspace ) -
+    otherwise the blank becomes part of the next value, a quote behind it is no longer a quote, and a padded list means other values
+    than the same list written without blanks.  The effective options of the csv.reader call are evaluated (defaults included)."""
+    res = Result( 'T-OPVALUES' )
+    src = ctx.src( CLIENT )
+    fn = src.get( 'parse_operations' )
+    calls = [ c for c in ast.walk( fn ) if is_call_to( c, 'csv.reader' ) ]
+    if len( calls ) != 1:
+        raise AnalysisError( 'parse_operations: the csv.reader call that splits the value list not found (%d)' % len( calls ))
+    c = calls[0]
+    kw = { k.arg: k.value for k in c.keywords }
+    eff = dict( delimiter=',', quotechar='"', skipinitialspace=False, quoting='QUOTE_MINIMAL', escapechar=None, doublequote=True )
+    for k, v in kw.items():
+        if k in ( 'quoting', ):
+            eff[k] = ( dotted( v ) or '?' ).split( '.' )[-1]
+        elif k in eff:
+            eff[k] = try_fold( v, default='?' )
+        else:
+            raise AnalysisError( 'parse_operations: csv.reader option %r outside the modelled set' % k )
+    want = dict( delimiter=',', quotechar='"', skipinitialspace=True )
+    wrong = { k: eff[k] for k in want if eff[k] != want[k] }
+    if eff['quoting'] in ( 'QUOTE_NONE', 'QUOTE_NONNUMERIC' ):
+        wrong['quoting'] = eff['quoting']
+    if wrong:
+        res.bad( src, c, 'parse_operations splits the value list with %s' % ', '.join( '%s=%r' % kv for kv in sorted( wrong.items())),
+                 'a value list padded with blanks ( (SSTRING)"ef", "g h"  or  1, 2, 3 for text types ) no longer means the values it spells: the blank after a comma belongs to the next value and a quote behind it is literal' )
+    else:
+        res.ok( src, c, "value lists are split at ',', quoted with '\"', blanks after a separator discarded ( effective csv options evaluated )" )
     return res
 
 
